@@ -63,6 +63,17 @@ func (j *Jar) Lookup(key string) (string, bool) {
 	return "", false
 }
 
+// Lookup2 returns the raw value and presence bit without branching (the value is
+// meaningful only when present).
+func (j *Jar) Lookup2(key string) (string, bool) {
+	for i, k := range j.Keys {
+		if k == key {
+			return j.Vals[i], j.Present[i]
+		}
+	}
+	return "", false
+}
+
 // Has reports presence without forking on the value.
 func (j *Jar) Has(key string) bool {
 	for i, k := range j.Keys {
